@@ -369,6 +369,44 @@ pub fn check(ctx: &mut Ctx, which: &'static str) {
         |t| gen_long(t, true),
         |c, obs| if is07 { oracle_c07(c, obs, false) } else { oracle_c08(c, obs, false) },
     );
+    if !is07 {
+        // second observation point: clean on documents whose tag is preceded / followed by delimiter fragments
+        let mut cases = vec![];
+        for (ds, de) in all_pairs(false) {
+            let dsc: Vec<char> = ds.chars().collect();
+            let dec: Vec<char> = de.chars().collect();
+            let mut frags: Vec<String> = vec![String::new()];
+            for k in 1..=dsc.len() {
+                frags.push(dsc[..k].iter().collect());
+            }
+            for k in 1..=dec.len() {
+                frags.push(dec[..k].iter().collect());
+                frags.push(dec[dec.len() - k..].iter().collect());
+            }
+            frags.sort();
+            frags.dedup();
+            for f1 in &frags {
+                for f2 in &frags {
+                    for sep in ["", "x", " "] {
+                        let src = format!("{f1}{sep}{ds}rm name='a'{de}{f2}X{f1}{ds}/rm{de}{sep}{f2}Y");
+                        cases.push(crate::junkgen::JunkCase { src, cfg: crate::util::Cfg::simple(ds, de) });
+                    }
+                }
+            }
+        }
+        let n = cases.len();
+        let chunks: Vec<Vec<crate::junkgen::JunkCase>> = cases.chunks(200).map(|c| c.to_vec()).collect();
+        ctx.exhaustive("clean-after-delimiter-fragments", &format!("{n} documents: a ready element whose tags are preceded / followed by every prefix and suffix of the delimiters, 18 delimiter pairs; clean must remove exactly what the textbook scan + reference model say"), chunks, |chunk, obs| {
+            for c in chunk {
+                obs.eval();
+                match crate::props::clean::oracle_junk_mode(c, crate::props::clean::Which::C03, obs, true) {
+                    Verdict::Fail(m) => return Some(fail_case("clean-after-delimiter-fragments", c, m)),
+                    _ => {}
+                }
+            }
+            None
+        });
+    }
     if ctx.tier == Tier::Thorough {
         let pairs = all_pairs(true);
         let mut seeds = vec![];
@@ -383,8 +421,14 @@ pub fn check(ctx: &mut Ctx, which: &'static str) {
     }
 }
 
-pub fn replay(which: &str, _sub: &str, case: &Value, obs: &mut Obs) -> Result<Verdict, String> {
+pub fn replay(which: &str, sub: &str, case: &Value, obs: &mut Obs) -> Result<Verdict, String> {
     let is07 = which == "C07";
+    if sub == "clean-after-delimiter-fragments" {
+        return replay_case::<crate::junkgen::JunkCase, _>(case, obs, |c, obs| {
+            obs.eval();
+            crate::props::clean::oracle_junk_mode(c, crate::props::clean::Which::C03, obs, false)
+        });
+    }
     replay_case::<TokCase, _>(case, obs, |c, obs| {
         obs.eval();
         if is07 {
